@@ -10,18 +10,22 @@ package format
 //@ func NewMessageTable
 //@   safety[C02]
 //@   ensures result.table == table && result.data == data && result.big == big
+//@   noalloc[C17]
 
 //@ func (MessageTable).Len
 //@   safety[C02]
 //@   ensures result == ite(t.big, len(t.table) / 6, len(t.table) / 3)
+//@   noalloc[C17]
 
 //@ func (MessageTable).DataSize
 //@   safety[C02]
 //@   ensures result == t.data
+//@   noalloc[C17]
 
 //@ func (messageTable).count
 //@   safety[C02]
 //@   ensures result == ite(big, len(t) / 6, len(t) / 3)
+//@   noalloc[C17]
 
 // ---- message table: lookup by tag (binary search over unsafe reads)
 
@@ -40,6 +44,7 @@ package format
 //@        ==> (forall k :: 0 <= k && k < left ==> smallTag(mem(t), lo(t), k) < tag)
 //@   loop 1 invariant[C01,C16] (forall i, j :: 0 <= i && i < j && j < n ==> smallTag(mem(t), lo(t), i) < smallTag(mem(t), lo(t), j))
 //@        ==> (forall k :: right < k && k < n ==> smallTag(mem(t), lo(t), k) > tag)
+//@   noalloc[C17]
 
 //@ func (messageTable).offset_big
 //@   safety[C02]
@@ -56,12 +61,14 @@ package format
 //@        ==> (forall k :: 0 <= k && k < left ==> bigTag(mem(t), lo(t), k) < tag)
 //@   loop 1 invariant[C01,C16] (forall i, j :: 0 <= i && i < j && j < n ==> bigTag(mem(t), lo(t), i) < bigTag(mem(t), lo(t), j))
 //@        ==> (forall k :: right < k && k < n ==> bigTag(mem(t), lo(t), k) > tag)
+//@   noalloc[C17]
 
 //@ func (MessageTable).Offset
 //@   safety[C02]
 //@   ensures[C02] 0 - 1 <= result && result <= 4294967295
 //@   ensures[C01,C16] !t.big && result >= 0 ==> exists k :: 0 <= k && k < len(t.table) / 3 && smallTag(mem(t.table), lo(t.table), k) == tag && smallOff(mem(t.table), lo(t.table), k) == result
 //@   ensures[C01,C16] t.big && result >= 0 ==> exists k :: 0 <= k && k < len(t.table) / 6 && bigTag(mem(t.table), lo(t.table), k) == tag && bigOff(mem(t.table), lo(t.table), k) == result
+//@   noalloc[C17]
 
 // ---- message table: access by index
 
@@ -70,51 +77,61 @@ package format
 //@   ensures[C02] 0 - 1 <= result && result <= 65535
 //@   ensures[!C02] 0 <= i && i < len(t) / 3 ==> result == smallOff(mem(t), lo(t), i)
 //@   ensures[!C02] i < 0 || i >= len(t) / 3 ==> result == 0 - 1
+//@   noalloc[C17]
 
 //@ func (messageTable).offsetByIndex_big
 //@   safety[C02]
 //@   ensures[C02] 0 - 1 <= result && result <= 4294967295
 //@   ensures[!C02] 0 <= i && i < len(t) / 6 ==> result == bigOff(mem(t), lo(t), i)
 //@   ensures[!C02] i < 0 || i >= len(t) / 6 ==> result == 0 - 1
+//@   noalloc[C17]
 
 //@ func (MessageTable).OffsetByIndex
 //@   safety[C02]
 //@   ensures[C02] 0 - 1 <= result && result <= 4294967295
 //@   ensures[!C02] !t.big && 0 <= i && i < len(t.table) / 3 ==> result == smallOff(mem(t.table), lo(t.table), i)
 //@   ensures[!C02] t.big && 0 <= i && i < len(t.table) / 6 ==> result == bigOff(mem(t.table), lo(t.table), i)
+//@   noalloc[C17]
 
 //@ func (messageTable).field_small
 //@   safety[C02]
 //@   ensures[!C02] 0 <= i && i < len(t) / 3 ==> ok && f.Tag == smallTag(mem(t), lo(t), i) && f.Offset == smallOff(mem(t), lo(t), i)
 //@   ensures[!C02] i < 0 || i >= len(t) / 3 ==> !ok && f.Tag == 0 && f.Offset == 0
+//@   noalloc[C17]
 
 //@ func (messageTable).field_big
 //@   safety[C02]
 //@   ensures[!C02] 0 <= i && i < len(t) / 6 ==> ok && f.Tag == bigTag(mem(t), lo(t), i) && f.Offset == bigOff(mem(t), lo(t), i)
 //@   ensures[!C02] i < 0 || i >= len(t) / 6 ==> !ok && f.Tag == 0 && f.Offset == 0
+//@   noalloc[C17]
 
 //@ func (MessageTable).Field
 //@   safety[C02]
 //@   ensures[!C02] !t.big && 0 <= i && i < len(t.table) / 3 ==> result1 && result0.Tag == smallTag(mem(t.table), lo(t.table), i)
 //@   ensures[!C02] t.big && 0 <= i && i < len(t.table) / 6 ==> result1 && result0.Tag == bigTag(mem(t.table), lo(t.table), i)
+//@   noalloc[C17]
 
 // ---- list table
 
 //@ func NewListTable
 //@   safety[C02]
 //@   ensures result.table == table && result.data == data && result.big == big
+//@   noalloc[C17]
 
 //@ func (ListTable).Len
 //@   safety[C02]
 //@   ensures result == ite(t.big, len(t.table) / 4, len(t.table) / 2)
+//@   noalloc[C17]
 
 //@ func (ListTable).DataSize
 //@   safety[C02]
 //@   ensures result == t.data
+//@   noalloc[C17]
 
 //@ func (listTable).len
 //@   safety[C02]
 //@   ensures result == ite(big, len(t) / 4, len(t) / 2)
+//@   noalloc[C17]
 
 //@ func (listTable).offset_small
 //@   safety[C02]
@@ -122,6 +139,7 @@ package format
 //@   ensures[C02] (0 <= i && i < len(t) / 2) <==> result0 >= 0
 //@   ensures[!C02] 0 <= i && i < len(t) / 2 ==> result1 == listSmallEnd(mem(t), lo(t), i) && result0 == ite(i > 0, listSmallEnd(mem(t), lo(t), i - 1), 0)
 //@   ensures[!C02] i < 0 || i >= len(t) / 2 ==> result0 == 0 - 1 && result1 == 0 - 1
+//@   noalloc[C17]
 
 //@ func (listTable).offset_big
 //@   safety[C02]
@@ -129,6 +147,7 @@ package format
 //@   ensures[C02] (0 <= i && i < len(t) / 4) <==> result0 >= 0
 //@   ensures[!C02] 0 <= i && i < len(t) / 4 ==> result1 == listBigEnd(mem(t), lo(t), i) && result0 == ite(i > 0, listBigEnd(mem(t), lo(t), i - 1), 0)
 //@   ensures[!C02] i < 0 || i >= len(t) / 4 ==> result0 == 0 - 1 && result1 == 0 - 1
+//@   noalloc[C17]
 
 //@ func (ListTable).Offset
 //@   safety[C02]
@@ -136,6 +155,7 @@ package format
 //@   ensures[C02] (0 <= i && i < ite(t.big, len(t.table) / 4, len(t.table) / 2)) <==> result0 >= 0
 //@   ensures[!C02] !t.big && 0 <= i && i < len(t.table) / 2 ==> result1 == listSmallEnd(mem(t.table), lo(t.table), i) && result0 == ite(i > 0, listSmallEnd(mem(t.table), lo(t.table), i - 1), 0)
 //@   ensures[!C02] t.big && 0 <= i && i < len(t.table) / 4 ==> result1 == listBigEnd(mem(t.table), lo(t.table), i) && result0 == ite(i > 0, listBigEnd(mem(t.table), lo(t.table), i - 1), 0)
+//@   noalloc[C17]
 
 // ---- big/small rule
 
@@ -144,10 +164,12 @@ package format
 //@   ensures[C01,C08] result <==> exists k :: 0 <= k && k < len(fields) && (fields[k].Tag > 255 || fields[k].Offset > 65535)
 //@   loop 1 invariant 0 - 1 <= i && i < len(fields)
 //@   loop 1 invariant[C01,C08] forall k :: i < k && k < len(fields) ==> fields[k].Tag <= 255 && fields[k].Offset <= 65535
+//@   noalloc[C17]
 
 //@ func IsBigList
 //@   safety[C02]
 //@   ensures[C01,C08] result <==> (len(elements) > 255 || (len(elements) > 0 && elements[len(elements)-1].Offset > 65535))
+//@   noalloc[C17]
 
 // ---- strings (C04: status codes and messages are cloned out of the receive buffer)
 //@ func (String).Clone
@@ -156,3 +178,4 @@ package format
 //@ func (String).Unwrap
 //@   safety[C04]
 //@   ensures[C04] result == s
+//@   noalloc[C17]
